@@ -187,6 +187,130 @@ pub fn case(kind: &str, zst: bool, n: usize, req: &str) -> Result<bool, String> 
     Ok(true)
 }
 
+
+// ---- vectors of zero-sized elements whose length is close to usize::MAX -------------------------------------------
+// Such a vector never allocates (capacity usize::MAX), so the only thing that can go wrong is the length computation:
+// whatever adds r elements to a vector of usize::MAX - k elements must fail for r > k and leave the length alone.
+
+pub const HUGE_KINDS: [&str; 4] = ["fixed", "vec", "mutvec", "mutvecrev"];
+pub const HUGE_REQS: [&str; 10] = ["push", "push_with", "insert", "extend_from_within_clone", "extend_from_within_copy", "extend_from_slice_clone", "extend_from_slice_copy", "append", "reserve", "extend_iter"];
+
+pub fn huge_text(kind: &str, k: usize, req: &str, r: usize) -> String {
+    format!("overflow:huge=1;kind={kind};k={k};req={req};r={r}")
+}
+
+/// Ok(Some(failed)) per twin; Ok(None) = not applicable
+fn huge_one(kind: &str, k: usize, req: &str, r: usize, try_: bool) -> Result<Option<bool>, String> {
+    slab::select(0);
+    slab::reset(0, SlabCfg::default());
+    let _ = vcore::crash::take_last_panic();
+    let mut bump: B = Bump::new_in(SlabZ);
+    let start = usize::MAX - k;
+    macro_rules! go {
+        ($v:ident) => {{
+            if $v.capacity() < start {
+                return Ok(None);
+            }
+            // SAFETY: the elements are zero-sized and need no initialisation; the new length is within the capacity
+            unsafe { $v.set_len(start) };
+            let src: Vec<()> = vec![(); r];
+            let r_ = catch_unwind(AssertUnwindSafe(|| -> Option<bool> {
+                Some(if try_ {
+                    match req {
+                        "push" => $v.try_push(()).is_err(),
+                        "push_with" => $v.try_push_with(|| ()).is_err(),
+                        "insert" => $v.try_insert(0, ()).is_err(),
+                        "extend_from_within_clone" => $v.try_extend_from_within_clone(0..r).is_err(),
+                        "extend_from_within_copy" => $v.try_extend_from_within_copy(0..r).is_err(),
+                        "extend_from_slice_clone" => $v.try_extend_from_slice_clone(&src).is_err(),
+                        "extend_from_slice_copy" => $v.try_extend_from_slice_copy(&src).is_err(),
+                        "append" => $v.try_append(src.clone()).is_err(),
+                        "reserve" => $v.try_reserve(r).is_err(),
+                        _ => return None,
+                    }
+                } else {
+                    match req {
+                        "push" => $v.push(()),
+                        "push_with" => $v.push_with(|| ()),
+                        "insert" => $v.insert(0, ()),
+                        "extend_from_within_clone" => $v.extend_from_within_clone(0..r),
+                        "extend_from_within_copy" => $v.extend_from_within_copy(0..r),
+                        "extend_from_slice_clone" => $v.extend_from_slice_clone(&src),
+                        "extend_from_slice_copy" => $v.extend_from_slice_copy(&src),
+                        "append" => $v.append(src.clone()),
+                        "reserve" => $v.reserve(r),
+                        "extend_iter" => $v.extend(src.iter().copied()),
+                        _ => return None,
+                    }
+                    false
+                })
+            }));
+            let len = $v.len();
+            // leave an empty vector behind (dropping usize::MAX unit values is a no-op anyway)
+            unsafe { $v.set_len(0) };
+            let failed = match r_ {
+                Ok(None) => return Ok(None),
+                Ok(Some(f)) => f,
+                Err(_) => {
+                    let m = vcore::crash::take_last_panic().unwrap_or_default();
+                    if try_ {
+                        return Err(format!("the try_ twin of {req} panicked: {m}"));
+                    }
+                    true
+                }
+            };
+            let adds = if req == "reserve" { 0 } else { r };
+            let want = if failed { start } else { start.wrapping_add(adds) };
+            if len != want {
+                return Err(format!("{}{req}({r}) on {} unit elements {} and left a length of {len}", if try_ { "try_" } else { "" }, fmt_huge(start), if failed { "failed" } else { "succeeded" }));
+            }
+            Some(failed)
+        }};
+    }
+    Ok(match kind {
+        "fixed" => {
+            let mut v: FixedBumpVec<()> = FixedBumpVec::with_capacity_in(usize::MAX, &bump);
+            go!(v)
+        }
+        "vec" => {
+            let mut v: BumpVec<(), &B> = BumpVec::new_in(&bump);
+            go!(v)
+        }
+        "mutvec" => {
+            let mut v: MutBumpVec<(), &mut B> = MutBumpVec::new_in(&mut bump);
+            go!(v)
+        }
+        _ => {
+            let mut v: MutBumpVecRev<(), &mut B> = MutBumpVecRev::new_in(&mut bump);
+            go!(v)
+        }
+    })
+}
+
+fn fmt_huge(n: usize) -> String {
+    format!("usize::MAX - {}", usize::MAX - n)
+}
+
+pub fn huge_case(kind: &str, k: usize, req: &str, r: usize) -> Result<bool, String> {
+    let single = matches!(req, "push" | "push_with" | "insert");
+    if single && r != 1 {
+        return Ok(false);
+    }
+    let must_fail = r > k;
+    let mut any = false;
+    for try_ in [true, false] {
+        let Some(failed) = huge_one(kind, k, req, r, try_)? else { continue };
+        any = true;
+        if must_fail && !failed {
+            return Err(format!("{}{req}({r}) on a {kind} of {} unit elements returned {} although the new length overflows", if try_ { "try_" } else { "" }, fmt_huge(usize::MAX - k), if try_ { "Ok" } else { "normally" }));
+        }
+        if !must_fail && failed {
+            return Err(format!("{}{req}({r}) on a {kind} of {} unit elements failed although the new length fits", if try_ { "try_" } else { "" }, fmt_huge(usize::MAX - k)));
+        }
+    }
+    Ok(any)
+}
+
 pub fn explore(thorough: bool) -> (J, Vec<J>) {
     let t0 = Instant::now();
     let mut viols = Vec::new();
@@ -212,13 +336,33 @@ pub fn explore(thorough: bool) -> (J, Vec<J>) {
             }
         }
     }
+    for kind in HUGE_KINDS {
+        for k in 0..=2usize {
+            for req in HUGE_REQS {
+                for r in 0..=4usize {
+                    n_cases += 1;
+                    let text = huge_text(kind, k, req, r);
+                    let res = vcore::crash::with_inflight(&text, |p| format!("replaycase=<<{}>>", unsafe { &*(p as *const String) }), || huge_case(kind, k, req, r));
+                    match res {
+                        Ok(true) => nt += 1,
+                        Ok(false) => {}
+                        Err(m) => {
+                            if viols.len() < 8 {
+                                viols.push(J::obj().set("prop", "C07").set("cfg", "up-ma1").set("params", format!("{kind} of usize::MAX - {k} unit elements")).set("history", format!("{req}({r})")).set("msg", m).set("replay_args", vec!["--case".to_string(), text]));
+                            }
+                        }
+                    }
+                }
+            }
+        }
+    }
     let cov = J::obj()
         .set("evaluations", n_cases)
         .set("distinct_nontrivial", nt)
         .set("states", n_cases)
         .set("transitions", n_cases)
         .set("traces_validated_against_impl", n_cases)
-        .set("rule", "overflowing requests: {FixedBumpVec, BumpVec, MutBumpVec, MutBumpVecRev} x {u64, ()} elements and {BumpString, MutBumpString} x length 0..N x {(try_)reserve(usize::MAX), (try_)reserve_exact(usize::MAX), (try_)reserve(usize::MAX - len + 1), (try_)reserve(isize::MAX)}; a request whose element count or byte size overflows must make the try_ twin return Err and the panicking twin unwind (never return), a satisfiable one (zero-sized elements) must succeed, contents and length stay as they were; non-trivial = cases with a defined expectation")
+        .set("rule", "overflowing requests: {FixedBumpVec, BumpVec, MutBumpVec, MutBumpVecRev} x {u64, ()} elements and {BumpString, MutBumpString} x length 0..N x {(try_)reserve(usize::MAX), (try_)reserve_exact(usize::MAX), (try_)reserve(usize::MAX - len + 1), (try_)reserve(isize::MAX)}; a request whose element count or byte size overflows must make the try_ twin return Err and the panicking twin unwind (never return), a satisfiable one (zero-sized elements) must succeed, contents and length stay as they were. Plus vectors of unit elements whose length is usize::MAX - k (k = 0..2; such a vector never allocates, only the length arithmetic can fail): {FixedBumpVec, BumpVec, MutBumpVec, MutBumpVecRev} x {push, push_with, insert, extend_from_within_clone / _copy (0..r), extend_from_slice_clone / _copy, append, reserve, extend} adding r = 0..4 elements, both twins: r > k must fail (Err / unwinding panic) with the length unchanged, r <= k must succeed with length + r; non-trivial = cases with a defined expectation")
         .set("samples", vec![case_text("fixed", true, 1, "reserve_max"), case_text("vec", false, 3, "reserve_isize_max")])
         .set("exhaustive", true);
     let space = J::obj()
@@ -242,6 +386,11 @@ pub fn replay(case_text: &str) -> Option<String> {
         if let Some((k, v)) = item.split_once('=') {
             m.insert(k.to_string(), v.to_string());
         }
+    }
+    if m.contains_key("huge") {
+        let kind = HUGE_KINDS.into_iter().find(|k| *k == m["kind"])?;
+        let req = HUGE_REQS.into_iter().find(|k| *k == m["req"])?;
+        return huge_case(kind, m["k"].parse().ok()?, req, m["r"].parse().ok()?).err();
     }
     let kind = KINDS.into_iter().find(|k| *k == m["kind"])?;
     let req = REQS.into_iter().find(|k| *k == m["req"])?;
